@@ -11,6 +11,7 @@ import (
 
 	"github.com/btcsuite/btcd/btcec/v2"
 	"github.com/btcsuite/btcd/btcec/v2/schnorr"
+	"github.com/btcsuite/btcd/btcec/v2/schnorr/musig2"
 	"github.com/dominant-strategies/go-quai/common"
 	"github.com/dominant-strategies/go-quai/core/types"
 	"github.com/dominant-strategies/go-quai/core/vm"
@@ -169,12 +170,59 @@ func (w *world) signQi(owner qiAcct, ins []types.OutPoint, outs types.TxOuts) *t
 	}
 	qt := &types.QiTx{ChainID: w.chainID, TxIn: txin, TxOut: outs}
 	d := w.signer.Hash(types.NewTx(qt))
+	if len(ins) > 1 {
+		qt.Signature = musigSameKey(owner.key, len(ins), d)
+		return types.NewTx(qt)
+	}
 	sig, err := schnorr.Sign(owner.key, d[:])
 	if err != nil {
 		panic(err)
 	}
 	qt.Signature = sig
 	return types.NewTx(qt)
+}
+
+// detReader: deterministic byte stream derived from a seed (nonce generation of test signatures only).
+type detReader struct {
+	seed []byte
+	ctr  byte
+}
+
+func (d *detReader) Read(p []byte) (int, error) {
+	for i := 0; i < len(p); {
+		d.ctr++
+		i += copy(p[i:], crypto.Keccak256(d.seed, []byte{d.ctr}))
+	}
+	return len(p), nil
+}
+
+// musigSameKey: a transaction with n > 1 inputs is verified against the MuSig2 aggregate of the n input
+// public keys (here n times the same key): run the n signers locally and combine.
+func musigSameKey(key *btcec.PrivateKey, n int, digest [32]byte) *schnorr.Signature {
+	pubs := make([]*btcec.PublicKey, n)
+	nonces := make([]*musig2.Nonces, n)
+	pubNonces := make([][musig2.PubNonceSize]byte, n)
+	for i := 0; i < n; i++ {
+		pubs[i] = key.PubKey()
+		nn, err := musig2.GenNonces(musig2.WithCustomRand(&detReader{seed: append(digest[:], byte(i))}), musig2.WithPublicKey(key.PubKey()))
+		if err != nil {
+			panic(err)
+		}
+		nonces[i], pubNonces[i] = nn, nn.PubNonce
+	}
+	comb, err := musig2.AggregateNonces(pubNonces)
+	if err != nil {
+		panic(err)
+	}
+	parts := make([]*musig2.PartialSignature, n)
+	for i := 0; i < n; i++ {
+		ps, err := musig2.Sign(nonces[i].SecNonce, key, comb, pubs, digest)
+		if err != nil {
+			panic(err)
+		}
+		parts[i] = ps
+	}
+	return musig2.CombineSigs(parts[0].R, parts)
 }
 
 // originHash builds an originating tx hash whose origin byte (h[2]) is the given zone.
